@@ -232,8 +232,8 @@ func SafeRun[C any, O any](t *testing.T, eng Engine[C, O], ctx *Ctx, sc *Scenari
 			site := PanicSite()
 			if strings.HasPrefix(site, "harness:") {
 				fmt.Fprintf(os.Stderr, "HARNESS-PANIC %v at %s\n", p, site)
-				buf := make([]byte, 1<<16)
-				buf = buf[:runtime.Stack(buf, false)]
+				buf := make([]byte, 1<<20)
+				buf = buf[:runtime.Stack(buf, true)]
 				os.Stderr.Write(buf)
 				os.Exit(2)
 			}
